@@ -103,12 +103,15 @@ func logClose(err error, pw *io.PipeWriter) {
 	}
 }
 
-func (r *request) buildHTTP(mediaType, basePath string, producers map[string]runtime.Producer, registry strfmt.Registry, auth runtime.ClientAuthInfoWriter) (*http.Request, error) { //nolint:gocyclo,maintidx
-	// build the data
-	if err := r.writer.WriteToRequest(r, registry); err != nil {
-		return nil, err
+func (r *request) closeFiles() {
+	for _, ff := range r.fileFields {
+		for _, ffi := range ff {
+			ffi.Close()
+		}
 	}
+}
 
+func (r *request) buildHTTP(mediaType, basePath string, producers map[string]runtime.Producer, registry strfmt.Registry, auth runtime.ClientAuthInfoWriter) (req *http.Request, err error) { //nolint:gocyclo,maintidx
 	// Our body must be an io.Reader.
 	// When we create the http.Request, if we pass it a
 	// bytes.Buffer then it will wrap it in an io.ReadCloser
@@ -116,6 +119,26 @@ func (r *request) buildHTTP(mediaType, basePath string, producers map[string]run
 	var body io.Reader
 	var pr *io.PipeReader
 	var pw *io.PipeWriter
+
+	// When no request can be built, nobody is going to read the body:
+	// release the files handed over for upload, and do not leave the
+	// multipart writer blocked on its pipe forever.
+	var multipartStarted bool
+	defer func() {
+		if err == nil {
+			return
+		}
+		if multipartStarted {
+			_ = pr.CloseWithError(err) // the multipart writer then closes the files
+			return
+		}
+		r.closeFiles()
+	}()
+
+	// build the data
+	if err := r.writer.WriteToRequest(r, registry); err != nil {
+		return nil, err
+	}
 
 	r.buf = bytes.NewBuffer(nil)
 	if r.payload != nil || len(r.formFields) > 0 || len(r.fileFields) > 0 {
@@ -138,11 +161,14 @@ func (r *request) buildHTTP(mediaType, basePath string, producers map[string]run
 		mp := multipart.NewWriter(pw)
 		r.header.Set(runtime.HeaderContentType, mangleContentType(mediaType, mp.Boundary()))
 
+		multipartStarted = true
 		go func() {
 			defer func() {
 				mp.Close()
 				pw.Close()
 			}()
+			// the files are closed however the writer ends
+			defer r.closeFiles()
 
 			for fn, v := range r.formFields {
 				for _, vi := range v {
@@ -153,13 +179,6 @@ func (r *request) buildHTTP(mediaType, basePath string, producers map[string]run
 				}
 			}
 
-			defer func() {
-				for _, ff := range r.fileFields {
-					for _, ffi := range ff {
-						ffi.Close()
-					}
-				}
-			}()
 			for fn, f := range r.fileFields {
 				for _, fi := range f {
 					var fileContentType string
@@ -325,7 +344,7 @@ DoneChoosingBodySource:
 		urlPath += "/"
 	}
 
-	req, err := http.NewRequestWithContext(context.Background(), r.method, urlPath, body)
+	req, err = http.NewRequestWithContext(context.Background(), r.method, urlPath, body)
 	if err != nil {
 		return nil, err
 	}
